@@ -218,6 +218,7 @@ package exif2
 //@   requires irOK(ir) && ir.buffer.pos == 0
 //@   modifies ir.po, stream(ir.reader), ir.buffer.buf, ir.buffer.len, ir.buffer.tag, ir.Exif
 //@   ensures ir.buffer.len <= 84 && ir.buffer.len >= old(ir.buffer.len)
+//@   loop 0 invariant 0 <= i && ir.buffer.len <= 84 && ir.buffer.len >= old(ir.buffer.len)
 
 //@ func (*ifdReader).readSubIfds
 //@   props C01 C02
@@ -237,6 +238,7 @@ package exif2
 //@   requires irOK(ir) && ir.buffer.pos == 0
 //@   modifies ir.po, stream(ir.reader), ir.buffer.buf, ir.buffer.len, ir.buffer.pos, ir.buffer.tag, ir.Exif
 //@   ensures irOK(ir)
+//@   loop 0 invariant irOK(ir) && (ir.buffer.pos < ir.buffer.len ==> t == ir.buffer.tag[ir.buffer.pos])
 
 //@ func (*ifdReader).ResetReader
 //@   props C01
